@@ -13,7 +13,7 @@ REQUIRED = ['getNBest_tie', 'getNBest_fits', 'getNBest_everyone', 'getNBest_leng
             'below_never_elected', 'getNBest_strictMono_map', 'plurality_eq', 'quotaSelector_ok',
             'sorted_votes_desc_spec', 'sorted_votes_asc_spec', 'sorted_votes_level_sets_agree', 'elected_stays_elected']
 NAME_MODES = ['str', 'int0', 'empty0', 'person', 'tuple']
-REQUIRED_COUNTERS = ['hash_alike_sequence', 'falsy_first_below_cut', 'sorted_votes', 'boundary_tie', 'level_fits', 'negative_value', 'all_elected', 'fraction', 'decimal', 'quota_selector']
+REQUIRED_COUNTERS = ['hash_alike_sequence', 'falsy_first_below_cut', 'sorted_votes', 'boundary_tie', 'level_fits', 'negative_value', 'all_elected', 'fraction', 'decimal', 'quota_selector', 'sequence_on_one_object', 'seq_quota_selector', 'seq_plurality']
 RULE = ('1-8 candidates, values from tie-forcing small sets (incl. negatives/zero), Fractions, Decimals and integers up to '
         '10^30; n from 1 to len+2; ops get_n_best, plurality, quota_selector(select/error). Non-trivial = at least two '
         'candidates and a result that is not an error; distinct by canonical request.')
@@ -75,6 +75,23 @@ def generate(rng, tier):
             q = rng.choice(QUOTAS)
             yield _mk('quota_selector', vals, rng.randint(1, m), ['quota_selector'], quota=q,
                       accept_equal=rng.random() < 0.5, on_more=rng.choice(['select', 'select', 'error']))
+    # sequences on ONE object: a candidate that reached the quota (or was elected) in an earlier call is absent from, or far below the
+    # cut in, a later call; configurations of the selector stay fixed within a sequence
+    for k in range(80 if tier == 'quick' else 1500):
+        kind = rng.choice(['quota_selector', 'quota_selector', 'plurality'])
+        q, ae, om = rng.choice(QUOTAS), rng.random() < 0.5, rng.choice(['select', 'select', 'error'])
+        calls = []
+        for t in range(rng.randint(2, 4)):
+            m = rng.randint(2, 6)
+            if t == 0:
+                vals = [rng.randint(20, 60) for _ in range(m)]                # many reach the quota
+            else:
+                vals = [rng.choice([0, 1, 2, 3, 30, 50]) for _ in range(m)]   # the same names, now mostly far below it
+                if sum(vals) == 0:
+                    vals[0] = 7
+            n = rng.randint(1, m)
+            calls.append(_mk(kind, vals, n, [], quota=q, accept_equal=ae, on_more=om) if kind == 'quota_selector' else _mk(kind, vals, n, []))
+        yield {'op': 'seq', 'n': 0, 'calls': calls, '_tags': ['sequence_on_one_object', 'seq_' + kind]}
     # directed: boundary ties, level sets that just fit
     for k in range(60 if tier == 'quick' else 600):
         m = rng.randint(2, 8)
@@ -145,6 +162,8 @@ def _votes(case):
 def impl(case):
     import votelib.evaluate.core as vcore
     import votelib.evaluate.approval as vapp
+    if case['op'] == 'seq':
+        return _impl_seq(case)
     votes = _votes(case)
     n = case['n']
     if case['op'] == 'get_n_best':
@@ -161,11 +180,28 @@ def impl(case):
     raise ValueError(case['op'])
 
 
+def _impl_seq(case):
+    """ONE evaluator object answers all calls of the sequence (as a selector inside ByConstituency does); each call is guarded on its
+    own; the case carries its whole history, so a replay reproduces it"""
+    import votelib.evaluate.core as vcore
+    import votelib.evaluate.approval as vapp
+    first = case['calls'][0]
+    if first['op'] == 'plurality':
+        ev = vcore.Plurality()
+    else:
+        ev = vapp.QuotaSelector(first['quota'], accept_equal=first['accept_equal'], on_more_over_quota=first['on_more'])
+    return [guarded(lambda sub=sub: enc_selection(ev.evaluate(_votes(sub), sub['n']), NAMES)) for sub in case['calls']]
+
+
 def _oracle_nbest(vals, n, res):
     """the property stated directly; vals: dict id -> Fraction; res: protocol selection"""
     out = []
     if isinstance(res, dict):
         return [('unexpected_error', res.get('err'))]
+    foreign = [x for x in res if not isinstance(x, dict) and x not in vals] + \
+              [y for x in res if isinstance(x, dict) for y in x.get('tie', []) if y not in vals]
+    if foreign:
+        return [('foreign_candidate', f'{foreign} do not occur in the votes of this call; got {res}')]
     m = len(vals)
     srt = sorted(vals.values(), reverse=True)
     if m <= n:
@@ -207,6 +243,11 @@ def _oracle_nbest(vals, n, res):
 
 
 def oracle(case, obs):
+    if case['op'] == 'seq':
+        out = []
+        for k, (sub, o) in enumerate(zip(case['calls'], obs)):
+            out += [('later_call_' + cl if k else cl, f'call {k + 1} of {len(case["calls"])} on one object: {d}') for cl, d in oracle(sub, o)]
+        return out
     vals = {i: Fraction(s) for i, s in case['votes']}
     n = case['n']
     if case['op'] == 'sorted_votes':
@@ -225,6 +266,10 @@ def oracle(case, obs):
             return [] if obs == {'err': 'VotingSystemError'} else [('quota_error_expected', str(obs))]
         if isinstance(obs, dict):
             return [('unexpected_error', obs.get('err'))]
+        foreign = [x for x in obs if not isinstance(x, dict) and x not in vals] + \
+                  [y for x in obs if isinstance(x, dict) for y in x.get('tie', []) if y not in vals]
+        if foreign:
+            return [('foreign_candidate', f'{foreign} do not occur in the votes of this call; got {obs}')]
         if len(over) <= n:
             ok = sorted(obs) == sorted(over) if all(not isinstance(x, dict) for x in obs) else False
             seq = [vals[x] for x in obs if not isinstance(x, dict)]
@@ -236,10 +281,14 @@ def oracle(case, obs):
 
 
 def nontrivial(case, obs):
+    if case['op'] == 'seq':
+        return True
     return len(case['votes']) >= 2 and not isinstance(obs, dict)
 
 
 def model_line(case):
+    if case['op'] == 'seq':
+        return None          # every single call is compared with the model by the single-call cases; the sequence is oracle-checked
     c = strip_case(case)
     return c
 
@@ -249,6 +298,12 @@ def _tag(case, obs):
 
 
 def shrink_candidates(case):
+    if case['op'] == 'seq':
+        for i in range(len(case['calls']) - 1):
+            c = dict(case)
+            c['calls'] = case['calls'][:i] + case['calls'][i+1:]
+            yield c
+        return
     vs = case['votes']
     for i in range(len(vs)):
         if len(vs) > 1:
@@ -265,6 +320,8 @@ def shrink_candidates(case):
 
 
 def describe(case):
+    if case['op'] == 'seq':
+        return 'one object, calls in a row: ' + '; '.join(describe(sub) for sub in case['calls'])
     return f"{case['op']}({_votes(case)!r}, {case['n']})" + (f" quota={case.get('quota')}" if 'quota' in case else '')
 
 
@@ -274,6 +331,9 @@ _gen = generate
 
 def generate(rng, tier):     # noqa
     for c in _gen(rng, tier):
+        if c['op'] == 'seq':
+            yield c
+            continue
         vals = {i: Fraction(s) for i, s in c['votes']}
         n = c['n']
         if c['op'] not in ('quota_selector', 'sorted_votes'):
